@@ -78,7 +78,7 @@ def _history(rng, npop, rounds):
 
 
 def generate(tier, rng):
-  reps = {'quick': 2, 'thorough': 6, 'search': 10}[tier]
+  reps = {'quick': 3, 'thorough': 8, 'search': 12}[tier]
   for name in ALGS + AGGS:
     for hp in _hp_grid(name, tier, rng):
       for i in range(reps):
@@ -325,7 +325,7 @@ def encode(case, obs):
     robs.append(f'(mkRO {len(ro["writes"]) + ro["deleted"]} {pat} ({fw.zlist(ro["keys"])})%Z {max(ro["rngpath"], 0) if ro["rngpath"] >= 0 else 999})')
   W = case['hp'].get('W', 1)
   K = case['hp'].get('K', 2)
-  return (f'((mkC10 {ALG_COQ[name]} {W} {K} {init} {fw.clist(rounds)}, {fw.clist(robs)})%nat)').replace('0%nat', '0')
+  return (f'((mkC10 {ALG_COQ[name]} {W} {K} {init} {fw.clist(rounds)}, {fw.clist(robs)})%nat)')
 
 
 def nontrivial(case, obs):
